@@ -322,7 +322,7 @@ def assemble(unit_file, canary=False, mutate_spec=None):
                 expanded.append((path, ln, l))
                 if s.startswith("//@ "):
                     tk = s.split()
-                    if tk[1] in ("ITEM", "IMPLHEAD", "TRAITHEAD", "TRAITTYPES", "FN", "COVER"):
+                    if tk[1] in ("ITEM", "IMPLHEAD", "IMPLTYPES", "TRAITHEAD", "TRAITTYPES", "FN", "COVER"):
                         files.add(tk[2])
 
     expand(lines)
@@ -386,6 +386,13 @@ def assemble(unit_file, canary=False, mutate_spec=None):
                 if it["kind"] == "trait_type" and it["key"].startswith(key + "::"):
                     asm.emit("    " + src[it["start"]:it["span"][1]].decode().strip() + "\n", {"kind": "repo-item", "file": relfile, "line0": it["span"][2], "key": it["key"]})
             i += 1
+        elif d == "IMPLTYPES":
+            relfile, key = tk[2], tk[3]
+            src = ex[relfile]["src"]
+            for it in ex[relfile]["items"]:
+                if it["kind"] == "impl_type" and it["key"].startswith(key + "::"):
+                    asm.emit("    " + src[it["span"][0]:it["span"][1]].decode().strip() + "\n", {"kind": "repo-item", "file": relfile, "line0": it["span"][2], "key": it["key"]})
+            i += 1
         elif d == "COVER":
             relfile, key = tk[2], tk[3]
             kv, _ = _kv(tk[4:])
@@ -439,7 +446,8 @@ def assemble(unit_file, canary=False, mutate_spec=None):
                 i += 1
             spec = "\n".join(spec_lines)
             passes = [False]
-            if canary and "nobody" not in flags and it["body"] is not None:
+            if canary and "nobody" not in flags and it["body"] is not None and "@" not in key:
+                # (methods of trait impls cannot be copied under another name: exempt; their preconditions are the trait's)
                 passes = [False, True]  # the canary is a renamed COPY so that no caller ever assumes its `ensures false`
             for is_copy in passes:
                 fninfo = {"unit": asm.unit, "key": key, "file": relfile, "body_tags": body_tags}
@@ -686,10 +694,10 @@ def verify_unit(unit_file, workdir, want_canary=True):
         open(cpath, "w").write(casm.text())
         cres = run_verus(cpath)
         cfailed, cinfra = classify(casm, cres)
-        fns_with_body = [f["key"] for f in casm.functions if f["kind"] == "fn"]
+        fns_with_body = [f["key"] for f in casm.functions if f["kind"] == "fn" and "@" not in f["key"]]
         hit = set(e["fn"] for e in cfailed if e.get("canary"))
         missing = [f for f in fns_with_body if f not in hit]
-        out["canary"] = {"functions": len(fns_with_body), "failed_as_expected": len(hit), "missing": missing, "infra": cinfra, "wall_s": cres["wall_s"]}
+        out["canary"] = {"exempt_trait_impl_methods": [f["key"] for f in casm.functions if f["kind"] == "fn" and "@" in f["key"]], "functions": len(fns_with_body), "failed_as_expected": len(hit), "missing": missing, "infra": cinfra, "wall_s": cres["wall_s"]}
         if missing:
             out["infra"].append("canary `ensures false` verified for %s: precondition vacuous or function diverges" % missing)
         if cinfra:
